@@ -537,8 +537,56 @@ struct BulkWorld : World
     if (!C->stop && fits_host)
       reads_ok({ Range{ 0, (size_t)off, (size_t)count * 8 } }, "range_long");
   }
+  // Build `wide`: the guest's int has 8 bytes, the application's 4.  Element i lives at start + 8*i; a range whose
+  // application-side extent (count*4) still fits while its guest-side extent does not must not proceed - what lies behind
+  // the region is application memory.
+  void op_range_wide_int(const Op& op)
+  {
+    using GI = Sbx::T_IntType;
+    bool null = op.a[0] == 1;
+    uint64_t off = ((uint64_t)op.a[1] & (S - 1)) & ~(uint64_t)(sizeof(GI) - 1);
+    uint64_t count = (uint64_t)op.a[2];
+    auto p = ptr_at<int>(0, (int64_t)off, null);
+    uintptr_t a = (uintptr_t)p.UNSAFE_unverified();
+    bool fits_guest = !null && count >= 1 && in_region(0, a, (unsigned __int128)count * sizeof(GI));
+    bool fits_host = !null && count >= 1 && in_region(0, a, (unsigned __int128)count * sizeof(int));
+    // representable values in every cell up to the end of the region, and in the application bytes right behind it
+    for (uint64_t k = off; k + sizeof(GI) <= S; k += sizeof(GI)) {
+      GI v = (GI)(int)(0x1000 + k);
+      memcpy(impl[0]->mem.gbase + k, &v, sizeof v);
+    }
+    for (uint64_t k = 0; k + sizeof(GI) <= 2048; k += sizeof(GI)) {
+      GI v = (GI)0x5EC7;
+      memcpy(impl[0]->mem.base + S + k, &v, sizeof v);
+    }
+    Expect e = count == 0 ? MUST_ABORT : null ? EITHER : fits_guest ? MUST_PROCEED : MUST_ABORT;
+    Snap before = snap();
+    std::unique_ptr<int[]> got;
+    Outcome o = guarded([&] { got = p.copy_and_verify_range([&](std::unique_ptr<int[]> v) { return v; }, (size_t)count); });
+    C->ev("range<int, guest width %zu> off=%llu count=%llu -> %s", sizeof(GI), (unsigned long long)off, (unsigned long long)count, oname(o));
+    C->probe("range_over_type_wider_in_the_guest");
+    if (fits_host && !fits_guest)
+      C->probe("range_fits_in_application_width_only");
+    if (o == ALLOCFAIL && !fits_guest)
+      return;
+    judge(e, o, "range_wide", "copy_and_verify_range over an int that has 8 bytes in the guest");
+    Snap after = snap();
+    if (!C->stop && diff_ok(before, after, {}, "range_wide") && o == OK && fits_guest && got) {
+      for (uint64_t i = 0; i < count && !C->stop; i++)
+        if (got[i] != (int)(0x1000 + off + sizeof(GI) * i))
+          C->violate("C10", "request_not_carried_out@range_wide", "element %llu is %d, its guest cell holds %d", (unsigned long long)i, got[i], (int)(0x1000 + off + sizeof(GI) * i));
+    }
+    if (!C->stop && fits_guest)
+      reads_ok({ Range{ 0, (size_t)off, (size_t)(count * sizeof(GI)) } }, "range_wide");
+  }
   void op_range(const Op& op)
   {
+    if constexpr (sizeof(Sbx::T_IntType) > sizeof(int)) {
+      if ((uint64_t)op.a[3] % 5 == 2) {
+        op_range_wide_int(op);
+        return;
+      }
+    }
     if ((uint64_t)op.a[3] % 6 == 5) {
       op_range_long(op);
       return;
